@@ -852,7 +852,10 @@ func (vm *vm) handleThrow(arg interface{}) *Exception {
 		vm.stash = tf.stash
 		vm.privEnv = tf.privEnv
 		if ex != nil && len(vm.iterStack) > int(tf.iterLen) {
-			if x := vm.closeIterators(tf.iterLen, tf.refLen); x != nil {
+			x := vm.closeIterators(tf.iterLen, tf.refLen)
+			// the script code run by the iterators' return() methods may have caused vm.tryStack to be reallocated
+			tf = &vm.tryStack[len(vm.tryStack)-1]
+			if x != nil {
 				// Closing an iterator has been interrupted. There may be no other recover() that would call
 				// handleThrow() for it, so continue unwinding here, with that (uncatchable) condition.
 				arg, ex = x, nil
@@ -862,8 +865,6 @@ func (vm *vm) handleThrow(arg interface{}) *Exception {
 					continue
 				}
 			}
-			// the script code run by the iterators' return() methods may have caused vm.tryStack to be reallocated
-			tf = &vm.tryStack[len(vm.tryStack)-1]
 		} else {
 			_ = vm._restoreStacks(tf.iterLen, tf.refLen, false)
 		}
